@@ -750,7 +750,7 @@ func runCase(work string, cs caseSpec, id int) ([]gen.Case, error) {
 		out = append(out, mc)
 		return out, nil
 	}
-	mdump, mtables, err := dumpPath(merged, false)
+	mdump, _, err := dumpPath(merged, false)
 	if err != nil && errors.Is(err, index.ErrEmptyShard) {
 		// every input repository was empty or tombstoned: index.merge wrote a shard without repositories, which no
 		// reader loads. Nothing had to be preserved; the model's answer is the empty shard.
@@ -771,26 +771,57 @@ func runCase(work string, cs caseSpec, id int) ([]gen.Case, error) {
 		mc.Go, mc.Key = "merge: "+g, "merge-"+k
 	}
 	out = append(out, mc)
-	_ = mtables
 
-	// 4. explode the merged shard (sometimes with a fresh tombstone on it)
-	edump, _, err := dumpPath(merged, true)
+	// 4. explode the merged shard
+	ec, err := explodeCase(cs, merged, filepath.Join(dir, "exploded"), "explode/"+cs.Class, inputs, detail)
 	if err != nil {
 		return nil, err
 	}
-	edir := filepath.Join(dir, "exploded")
-	os.MkdirAll(edir, 0o755)
-	ecopy := filepath.Join(edir, filepath.Base(merged))
-	if err := os.Link(merged, ecopy); err != nil {
-		return nil, err
+	out = append(out, ec)
+
+	// 5. explode a compound *input* directly: its tombstones come from the .meta sidecar
+	if len(cs.Compound) > 0 && len(inputs) > 0 {
+		for _, p := range inputs {
+			if strings.HasPrefix(filepath.Base(p), "compound-") {
+				dc, err := explodeCase(cs, p, filepath.Join(dir, "exploded-input"), "explode/compound-input-direct", nil, detail)
+				if err != nil {
+					return nil, err
+				}
+				out = append(out, dc)
+				break
+			}
+		}
 	}
-	ec := gen.Case{In: "explode " + edump, Class: "explode/" + cs.Class, Detail: detail, Nontrivial: len(mtables.Repos) > 1}
+	return out, nil
+}
+
+// explodeCase copies the compound shard src (and its sidecar) into edir, runs the real index.Explode there and
+// compares tables (model) and searches/List (end to end) before and after. alsoBefore: an additional shard set that
+// must show the same content (the inputs the compound shard was merged from).
+func explodeCase(cs caseSpec, src, edir, class string, alsoBefore []string, detail json.RawMessage) (gen.Case, error) {
+	if err := os.MkdirAll(edir, 0o755); err != nil {
+		return gen.Case{}, err
+	}
+	// the untouched original stays available for the "before" searches
+	ecopy := filepath.Join(edir, filepath.Base(src))
+	if err := os.Link(src, ecopy); err != nil {
+		return gen.Case{}, err
+	}
+	if _, err := os.Stat(src + ".meta"); err == nil {
+		if err := os.Link(src+".meta", ecopy+".meta"); err != nil {
+			return gen.Case{}, err
+		}
+	}
+	edump, stables, err := dumpPath(ecopy, true)
+	if err != nil {
+		return gen.Case{}, err
+	}
+	ec := gen.Case{In: "explode " + edump, Class: class, Detail: detail, Nontrivial: len(stables.Repos) > 1}
 	if err := safeExplode(edir, ecopy); err != nil {
 		ec.Impl = "err"
 		ec.Go = "explode failed: " + err.Error()
 		ec.Key = "explode-error"
-		out = append(out, ec)
-		return out, nil
+		return ec, nil
 	}
 	ents, _ := os.ReadDir(edir)
 	type od struct{ key, dump string }
@@ -816,7 +847,7 @@ func runCase(work string, cs caseSpec, id int) ([]gen.Case, error) {
 	}
 	// the model lists the output shards in the compound shard's repository order
 	orderIdx := map[string]int{}
-	for i, r := range mtables.Repos {
+	for i, r := range stables.Repos {
 		orderIdx[hx(r.Meta.Name)] = i
 	}
 	sort.SliceStable(ods, func(a, b int) bool { return orderIdx[ods[a].key] < orderIdx[ods[b].key] })
@@ -830,14 +861,15 @@ func runCase(work string, cs caseSpec, id int) ([]gen.Case, error) {
 		ec.Impl = "ok " + strings.Join(ds, "#")
 	}
 	if ec.Go == "" {
-		if g, k := e2e(cs, []string{merged}, epaths); g != "" {
+		if g, k := e2e(cs, []string{src}, epaths); g != "" {
 			ec.Go, ec.Key = "explode: "+g, "explode-"+k
-		} else if g, k := e2e(cs, inputs, epaths); g != "" {
-			ec.Go, ec.Key = "explode∘merge: "+g, "roundtrip-"+k
+		} else if alsoBefore != nil {
+			if g, k := e2e(cs, alsoBefore, epaths); g != "" {
+				ec.Go, ec.Key = "explode∘merge: "+g, "roundtrip-"+k
+			}
 		}
 	}
-	out = append(out, ec)
-	return out, nil
+	return ec, nil
 }
 
 func main() {
